@@ -87,7 +87,8 @@ Definition phase_ok (g : ghost) (st : tcp_state) (len : Z) (syn_fw : bool) : Pro
             | _ => False
             end
   | PData => match st with
-             | Established | CloseWait => g_fin g = false
+             | Established => g_fin g = false /\ syn_fw = false
+             | CloseWait => g_fin g = false
              | FinWait1 => g_fin g = true /\ syn_fw = false
              | Closing | LastAck => g_fin g = true
              | Closed => True
